@@ -48,13 +48,15 @@ func (i *documentIndex) Get(key string) interface{} {
 }
 
 func (i *documentIndex) UpdateIndex(oplog ipfslog.Log, _ []ipfslog.Entry) error {
+	// read the log under the lock: with two concurrent updates, the one that read the
+	// log first must not apply its older reading last
+	i.muIndex.Lock()
+	defer i.muIndex.Unlock()
+
 	entries := oplog.Values().Slice()
 	size := len(entries)
 
 	handled := map[string]struct{}{}
-
-	i.muIndex.Lock()
-	defer i.muIndex.Unlock()
 
 	for idx := range entries {
 		item, err := operation.ParseOperation(entries[size-idx-1])
